@@ -334,6 +334,50 @@ def canonical_layout(items):
     return out
 
 
+# ---- legacy groups
+
+def g_legacy(rng):
+    style = rng.choice(["new", "old"])
+    pre = [g_cmd(rng) for _ in range(rng.choice([0, 0, 1, 2]))]
+    groups = []
+    for _ in range(rng.choice([1, 1, 2, 3])):
+        fs = rng.sample(FLAVORS, rng.choice([1, 1, 2, 3]))
+        groups.append({"flavors": fs, "spell": [rng.choice(["Flavor=%s", "Flavor = %s", "FLAVOR=%s", "flavor =%s", "  Flavor= %s"]) % f
+                                                for f in fs],
+                       "body": [g_cmd(rng) for _ in range(rng.choice([1, 1, 2, 3]))],
+                       "between": [g_cmd(rng) for _ in range(rng.choice([0, 0, 1]))] if style == "old" else []})
+    return {"style": style, "pre": pre, "groups": groups}
+
+
+def pr_legacy(a):
+    lines = []
+    for c in a["pre"]:
+        lines += c["lay"]["junk"] + [pr_cmd(c)]
+    for g in a["groups"]:
+        if a["style"] == "old":
+            lines.append("Group:")
+        lines += g["spell"]
+        if a["style"] == "old":
+            lines.append("Common:")
+        for c in g["body"]:
+            lines += c["lay"]["junk"] + [pr_cmd(c)]
+        if a["style"] == "old":
+            lines.append("End:")
+            for c in g["between"]:
+                lines += c["lay"]["junk"] + [pr_cmd(c)]
+    return "\n".join(lines) + "\n"
+
+
+def den_legacy(a, fl, ty):
+    """a group applies exactly when the flavor is one of those it lists"""
+    out = [den_cmd(c) for c in a["pre"]]
+    for g in a["groups"]:
+        if fl in g["flavors"]:
+            out += [den_cmd(c) for c in g["body"]]
+        out += [den_cmd(c) for c in g["between"]]
+    return out
+
+
 # ---- malformed stream
 
 MAL_LINES = ["}", "} else {", "} else if (FLAVOR == Linux64) {", "if (FLAVOR == Linux) {", "envSet(A)", "envSet()",
@@ -536,7 +580,7 @@ def oracle_table(c, impl):
     """list of (kind, env, expected, observed, what) where the property is false on the implementation"""
     bad = []
     for (fl, ty), r in zip(c["envs"], impl["per_env"]):
-        exp = den_items(c["ast"], fl, ty)
+        exp = den_legacy(c["ast"], fl, ty) if c["stream"] == "legacy" else den_items(c["ast"], fl, ty)
         if r.get("actions") != exp:
             what = ("flavor %s type %s: the text denotes %s, eups gives %s" %
                     (fl, ",".join(ty) or "-", json.dumps(exp), json.dumps(r.get("actions", r))))
@@ -678,6 +722,13 @@ def compare(ctx, cases, shrink=True):
             else:
                 ctx.traces_validated += 1
             continue
+        if c["stream"] == "legacy":
+            ctx.count(len(c["envs"]), key="legacy/%s/groups=%d" % (c["ast"]["style"], len(c["ast"]["groups"])),
+                      nontrivial=("leg", c["text"]))
+            for kind, env, exp, obs, what in oracle_table(c, i)[:1]:
+                ctx.fail("legacy-" + kind, {"stream": "legacy", "text": c["text"], "envs": [env], "ast": c["ast"]},
+                         expected=exp, observed=obs, what=what)
+            continue
         nchain = sum(1 for it in c["ast"] if it[0] == "chain")
         shape = "table/items=%d/chains=%d/ops<=%d%s" % (len(c["ast"]), nchain, max_ops(c["ast"]),
                                                        "/empty-branch" if has_empty_branch(c["ast"]) else "")
@@ -766,7 +817,9 @@ def setup(ctx):
                 "parentheses) under a random layout (indentation, blank and comment lines, trailing comments, letter case "
                 "of command names and of FLAVOR/TYPE, quoting of values and literals, separators, optional semicolon), "
                 "each evaluated for every mentioned flavor x type plus one unmentioned flavor and type; plus every chain "
-                "<= 3 branches with conditions <= 2 operators in plain layout; plus a malformed stream (accept/raise, "
+                "<= 3 branches with conditions <= 2 operators in plain layout; plus legacy files (new-style Flavor= groups and old-style "
+                "Group:/Flavor=/Common:/End: blocks with 1-3 flavors each, oracle: the body applies iff the flavor is listed); "
+                "plus a malformed stream (accept/raise, "
                 "actions and parsed block structure) and a condition token-soup stream (python value of eval). "
                 "A table case is non-trivial when it has at least one chain; distinct = distinct text")
     ctx.trusted_base = common.COMMON_TRUSTED + [
@@ -779,7 +832,8 @@ def setup(ctx):
         "whole-argument string)",
         "unquoted arguments contain no blank or comma; quoted arguments are non-empty",
         "flavor names start with a letter and are not True/False/EOF/or/and/not/flavor/type; condition literals likewise",
-        "operands ${VAR}, the operators =~ !~ < <= > >= and expandEupsVariables are not modelled",
+        "operands ${VAR}, the operators =~ !~ < <= > >= (hence the old-style wildcard Flavor=ANY) and expandEupsVariables are "
+        "not modelled",
         "the table is read with a topProduct (envUnset(PRODUCT_DIR) names its directory variable)"]
 
 
@@ -792,6 +846,10 @@ def run(ctx):
         items = g_items(ctx.rng, empties=(k % 12 == 0))
         cases.append({"stream": "table", "ast": items, "text": pr_items(items), "envs": envs_for(ctx.rng, items)})
     cases += list(exhaustive_small(ctx.size(600, None)))
+    for _ in range(ctx.size(300, 6000)):
+        a = g_legacy(ctx.rng)
+        cases.append({"stream": "legacy", "ast": a, "text": pr_legacy(a),
+                      "envs": [[f, t] for f in FLAVORS + [OTHER_FLAVOR] for t in ([], ["build"])][::2]})
     for _ in range(ctx.size(400, 20000)):
         cases.append(g_malformed(ctx.rng))
     for _ in range(ctx.size(1500, 60000)):
